@@ -58,8 +58,9 @@ Uninteresting == {"source", "source_ref", "source:ref", "history", "attribution"
 GridVals == <<-2, -1, 0, 1, 2>>          \* probe positions for Bounds.ContainsNode
 CoordsAll == {-1, 0, 1}                  \* (a cfg file cannot write negative numbers)
 CoordsPos == {0, 1}
-QIds == Ids \cup {0}                     \* ids the histories are asked for (0 is never appended)
-SortedQIds == SetToSortSeq(QIds, LAMBDA a, b : a < b)
+QIds == 0 .. 3                           \* ids the histories are asked for (0 is never appended)
+SortedQIds == <<0, 1, 2, 3>>
+ASSUME Ids \subseteq 1 .. 3
 
 MapSeq(s, f(_)) == [i \in 1 .. Len(s) |-> f(s[i])]
 Count(s, x) == Cardinality({i \in 1 .. Len(s) : s[i] = x})
